@@ -483,6 +483,12 @@ impl RocksDBStateMachine {
         if let Some(last_included) = &metadata.last_included {
             self.update_last_applied(*last_included);
         }
+        // The imported meta column family carries the exporter's bookkeeping (its previous
+        // snapshot, its applied index). Store this node's: the installed snapshot's metadata
+        // must survive a restart (the log is purged up to it) and the applied index must
+        // describe the installed state.
+        self.persist_snapshot_metadata()?;
+        self.persist_state_machine_metadata()?;
 
         self.is_serving.store(true, Ordering::SeqCst);
         info!("Snapshot applied successfully");
